@@ -13,7 +13,7 @@
 //   P        run the configured probe request of this protocol on a separate connection now (token p=<proto>:<hex>)
 //   P:<proto> same, for another protocol
 // result line: r=<hex>[!T] per R/E step, p=<hex>[!T] per P step, then
-//   closed=<1 if the server closed every accepted socket of the case> calls=<sync>,<async>,<up_setup>,<up_main>,<on_error>,<on_end>,<chunk_bytes>
+//   closed=<1 if the server closed every accepted socket of the case> calls=<sync>,<async>,<up_setup>,<up_main>,<on_error>,<on_end>,<setup_threw>,<chunk_bytes>
 //   probe=<hex>[!T]   (probe on a fresh connection after the case)
 #include <cppcms/service.h>
 #include <cppcms/application.h>
@@ -23,6 +23,7 @@
 #include <cppcms/http_context.h>
 #include <cppcms/http_content_filter.h>
 #include <cppcms/http_file.h>
+#include <stdexcept>
 #include <cppcms/mount_point.h>
 #include <cppcms/json.h>
 #include <booster/log.h>
@@ -69,7 +70,7 @@ extern "C" int close(int fd)
 	return real(fd);
 }
 
-std::atomic<int> g_sync_calls(0), g_async_calls(0), g_up_setup(0), g_up_main(0), g_on_error(0), g_on_end(0);
+std::atomic<int> g_sync_calls(0), g_async_calls(0), g_up_setup(0), g_up_main(0), g_on_error(0), g_on_end(0), g_up_abort(0);
 std::atomic<long> g_chunk_bytes(0);
 
 static std::string echo_body(cppcms::http::request &rq)
@@ -114,6 +115,29 @@ public:
 			g_up_setup++;
 			request().set_content_filter(*this);
 			return;
+		}
+		g_up_main++;
+		response().set_plain_text_header();
+		response().out() << echo_body(request());
+		release_context()->async_complete_response();
+	}
+};
+// content-filter application whose set-up call of main() throws: abort_upload(403) (MODE 0) or std::runtime_error (MODE 1);
+// context::on_headers_ready must turn that into a 403 / 500 reply (translate_exception), nothing may reach the event loop
+template<int MODE>
+class upload_throw : public cppcms::application, public cppcms::http::raw_content_filter {
+public:
+	upload_throw(cppcms::service &s) : cppcms::application(s) {}
+	virtual void on_data_chunk(void const *, size_t n) { g_chunk_bytes += long(n); }
+	virtual void on_end_of_content() { g_on_end++; }
+	virtual void on_error() { g_on_error++; }
+	virtual void main(std::string)
+	{
+		if (!request().is_ready()) {
+			g_up_setup++;
+			g_up_abort++;
+			if (MODE) throw std::runtime_error("set-up failed");
+			throw cppcms::http::abort_upload(403);
 		}
 		g_up_main++;
 		response().set_plain_text_header();
@@ -325,6 +349,8 @@ int main(int argc, char **argv)
 	cfg["http"]["script_names"][2] = "/up";
 	cfg["http"]["script_names"][3] = "/upm";
 	cfg["http"]["script_names"][4] = "/probe";
+	cfg["http"]["script_names"][5] = "/upa";
+	cfg["http"]["script_names"][6] = "/upt";
 	cfg["http"]["timeout"] = 30;
 	cfg["security"]["content_length_limit"] = cl_limit;       // KB
 	cfg["security"]["multipart_form_data_limit"] = mp_limit;  // KB
@@ -339,6 +365,8 @@ int main(int argc, char **argv)
 		srv.applications_pool().mount(cppcms::create_pool<echo>(), cppcms::mount_point("/async"), cppcms::app::asynchronous);
 		srv.applications_pool().mount(cppcms::create_pool<upload>(), cppcms::mount_point("/up"), cppcms::app::asynchronous | cppcms::app::content_filter);
 		srv.applications_pool().mount(cppcms::create_pool<upload_mp>(), cppcms::mount_point("/upm"), cppcms::app::asynchronous | cppcms::app::content_filter);
+		srv.applications_pool().mount(cppcms::create_pool<upload_throw<0> >(), cppcms::mount_point("/upa"), cppcms::app::asynchronous | cppcms::app::content_filter);
+		srv.applications_pool().mount(cppcms::create_pool<upload_throw<1> >(), cppcms::mount_point("/upt"), cppcms::app::asynchronous | cppcms::app::content_filter);
 		std::thread th([&srv]() {
 			try { srv.run(); }
 			catch (std::exception const &e) { std::cout << "SERVICE-THREW " << hex(e.what()) << std::endl; _exit(3); }
@@ -360,7 +388,7 @@ int main(int argc, char **argv)
 			std::vector<std::string> v = split(line);
 			if (v.empty()) { std::cout << "BAD-CASE" << std::endl; continue; }
 			if (v[0] == "probe" && v.size() == 3) { g_probe[v[1]] = unhex(v[2]); std::cout << "probe-set" << std::endl; continue; }
-			int c0 = g_sync_calls, c1 = g_async_calls, c2 = g_up_setup, c3 = g_up_main, c4 = g_on_error, c5 = g_on_end;
+			int c0 = g_sync_calls, c1 = g_async_calls, c2 = g_up_setup, c3 = g_up_main, c4 = g_on_error, c5 = g_on_end, c7 = g_up_abort;
 			long c6 = g_chunk_bytes;
 			std::string proto = v[0];
 			std::vector<client> done;   // earlier connections of this case (after N)
@@ -400,7 +428,7 @@ int main(int argc, char **argv)
 			}
 			out << "closed=" << (closed ? 1 : 0) << " ";
 			out << "calls=" << (g_sync_calls - c0) << "," << (g_async_calls - c1) << "," << (g_up_setup - c2) << "," << (g_up_main - c3)
-			    << "," << (g_on_error - c4) << "," << (g_on_end - c5) << "," << (g_chunk_bytes - c6);
+			    << "," << (g_on_error - c4) << "," << (g_on_end - c5) << "," << (g_up_abort - c7) << "," << (g_chunk_bytes - c6);
 			out << " probe=" << run_probe(proto);
 			std::cout << out.str() << std::endl;
 		}
